@@ -131,4 +131,11 @@ CHECKS = {
             sim_stage(150, 3000, shrinktime="30s"),
         ],
     },
+    "C07": {
+        "pkg": "c07", "level": "fault_enumeration", "needs": ["sysstop", "tool:recorder"],
+        "rule": "crash points are generated integers: a prior history of 0..3 completed runs (1..3 statuses each, payloads with lines beyond the 4096-byte buffer, some files aged 3 days) over 1..2 similarly named DAGs is built with the real store; a sound-by-construction operation sequence (open + first write / write / close-with-compaction / update of a completed run / rename / remove-old 1 day or all) is executed by tools/recorder in its own process under the sysstop ptrace supervisor, which SIGKILLs it at the ENTRY of the k-th file-system call under the data directory (openat with create/trunc/append/write flags, write, rename, unlink, mkdir, ftruncate, fsync, close); quick tier: <=12 drawn k per history, thorough: every k in 1..K; for a killed append every proper prefix (all for <=64 bytes, 6 boundary prefixes otherwise) is synthesised from the run killed one call later. Oracle on the surviving directory with a fresh store, from the recorder's ACK lines: every completed run not subject to an acknowledged/in-flight removal is returned by FindByRequestID (under the old or new name during an in-flight rename) with exactly its last acknowledged status (or the in-flight update's); the interrupted run is returned with the last acknowledged status or the in-flight one; latest-status and recent-history answer without error whenever acknowledged data exists, name the newest-started run with acknowledged data (or a later unacknowledged one), and never show an older status; no query panics. Non-trivial: >=1 prior run AND the kill lands in close/compaction, update, rename, remove-old or inside a write call; distinct: hash(history, ops, k); torn prefixes counted by construction.",
+        "assumptions": ["process-crash model: the kernel survives, bytes handed to write(2) are durable; fsync ordering / power loss out of scope", "request ids unique in their first 8 characters; one open run per process", "whether an acknowledged remove-old really removed a run is C06's business; here removed runs are simply no longer required"],
+        "stages": [{"name": "known", "run": "TestKnown", "kind": "plain", "shards": 1, "timeout": 300},
+                   sim_stage(40, 400, shrinktime="30s", timeout={"quick": 900, "thorough": 3600})],
+    },
 }
